@@ -15,6 +15,7 @@ unsigned vpy_kind(PyObject *o);       // 1 int, 2 float, 3 bool, 4 str, 5 tuple,
 unsigned long vpy_ival(PyObject *o);
 double vpy_dval(PyObject *o);
 const char *vpy_sptr(PyObject *o);
+long vpy_slen(PyObject *o);
 unsigned vpy_get_error();
 }
 #endif
